@@ -1,6 +1,6 @@
 import MythVerif.Proofs.WsQueueSeq
 import MythVerif.Proofs.WsQueueCor
-import MythVerif.Proofs.WsQueueTsoAcct
+import MythVerif.Proofs.WsQueueTsoBndAll
 import MythVerif.Generated.Consts
 /-! # C02 — runnable threads are never lost or duplicated by the work-stealing queues
 
@@ -276,6 +276,52 @@ theorem C02_no_loss_no_dup_tso (n : Int) (s : St) (h : Reachable step (init Fenc
     ⟨owner_baseI s hi, thief_baseI s hi⟩, base_tests_logical s hi,
     ⟨stuck_only_when_full s hi, (overflow_tests_logical s hi).1, (overflow_tests_logical s hi).2⟩,
     decline_spec s hi, cl1_assert_iff s hi⟩
+
+/-- **Both storage boundaries and the overflow guards under x86-TSO** (TSO analogue of
+`C02_abort_only_when_full` and of the store part of `C02_slot_accesses_in_bounds`; capacities
+`0 ≤ n`).  In every reachable state the bounds invariant `Bnd` holds: the logical window – and the
+owner's view of it while the shift entry of a re-centring is still buffered – lies inside
+`[0, size]`; the `myth_assert`s of the re-centring and insertion code hold (`offset < 0` in push,
+`offset > 0` in put, `t < size`, `b > 0`); every slot store of push / put / trypass goes to an index
+inside `[0, size)`; push's test `base == 0` (at `top == size`) and put's test `top == size` (at
+`base == 0`) fire exactly when the deque holds `size` elements. -/
+theorem C02_bounds_tso (n : Int) (hn : 0 ≤ n) (s : St) (h : Reachable step (init FenceCfg.code n) s) :
+    Bnd s ∧
+    (0 ≤ s.lb ∧ s.lt ≤ s.size ∧ 0 ≤ s.lb + s.sh ∧ s.lt + s.sh ≤ s.size) ∧
+    ((∀ e off, s.opc = .pum e off → off < 0 ∧ 0 ≤ viewBase s.bufO s.base + off) ∧
+     (∀ e off, s.opc = .pt3 e off → 0 < off ∧ viewTop s.bufO s.top + off ≤ s.size)) ∧
+    ((∀ e t, s.opc = .pu1 e t → 0 ≤ t ∧ t < s.size) ∧
+     (∀ e b, s.opc = .pt7 e b → 0 ≤ b - 1 ∧ b - 1 < s.size) ∧
+     (∀ p e b, s.tpc p = .tp2 e b → 0 ≤ b - 1 ∧ b - 1 < s.size)) ∧
+    ((∀ e, s.opc = .pub e → (viewBase s.bufO s.base = 0 ↔ (s.A.length : Int) = s.size)) ∧
+     (∀ e, s.opc = .pt2 e → (viewTop s.bufO s.top = s.size ↔ (s.A.length : Int) = s.size))) := by
+  obtain ⟨hi, hb⟩ := reachable_bnd n hn s h
+  have hlen := hi.len
+  have h0 := hb.lb0
+  have h1 := hb.lts
+  have h2 := hb.lbv
+  have h3 := hb.ltv
+  refine ⟨hb, ⟨h0, h1, h2, h3⟩, ⟨?_, ?_⟩, ⟨?_, ?_, ?_⟩, abort_iff_full s hi hb⟩
+  · intro e off hpc
+    obtain ⟨hv, _⟩ := (owner_views s hi).2.2.2.1 e off hpc
+    have := hb.pum e off hpc
+    rw [hv]; exact this
+  · intro e off hpc
+    obtain ⟨_, hv⟩ := (owner_views s hi).2.2.2.2 e off hpc
+    have := hb.pt3 e off hpc
+    rw [hv]; exact ⟨this.1, this.2.1⟩
+  · intro e t hpc
+    have := hi.pu1 e t hpc
+    have := hb.pu1 e t hpc
+    omega
+  · intro e b hpc
+    have := (hi.pt7 e b hpc).1
+    have := hb.pt7 e b hpc
+    omega
+  · intro p e b hpc
+    have := hi.tp2 p e b hpc
+    have := hb.tp2 p e b hpc
+    omega
 
 /-- The former name of `C02_no_loss_no_dup_tso` (from the time the TSO machine covered only part of
 the operations); same statement, kept so that existing references keep working. -/
